@@ -7,13 +7,14 @@ import json, os, subprocess, sys
 out, work, mode, cid = sys.argv[1:5]
 repl = {}
 hooks = '/verif/hooks'
+repo = os.environ.get('VERIF_REPO', '/repo')
 for root, _, files in os.walk(hooks):
     for f in files:
         if f.endswith('.go'):
             rel = os.path.relpath(root, hooks)
-            repl[os.path.join('/repo', rel, 'zz_verif_' + f)] = os.path.join(root, f)
+            repl[os.path.join(repo, rel, 'zz_verif_' + f)] = os.path.join(root, f)
 if mode == 'instr':
-    r = subprocess.run(['/verif/.bin/instr', '-repo', '/repo', '-out', os.path.join(work, 'instr')],
+    r = subprocess.run(['/verif/.bin/instr', '-repo', repo, '-out', os.path.join(work, 'instr')],
                        capture_output=True, text=True)
     if r.returncode != 0:
         sys.stderr.write(r.stdout + r.stderr)
